@@ -3,6 +3,8 @@ from pyvc.api import *  # noqa: F401,F403
 
 M = "cooler.core._rangequery"
 
+inline_ok(f"{M}:CSRReader.get_dict_meta", f"{M}:concat", f"{M}:transpose")
+
 
 @contract
 class ComesBefore(Contract):
@@ -32,3 +34,286 @@ class Contains(Contract):
     def ensures(self, result, a0, a1, b0, b1, strict):
         return {"value": Iff(result, And(a0 <= b0, a1 >= b1,
                                          Implies(strict, And(a0 != b0, a1 != b1))))}
+
+
+# ------------------------------------------------------------------ spans
+from contracts.common import *  # noqa: E402,F401,F403
+
+
+@contract
+class ArgPrunePartition(Contract):
+    """indices into seq: strictly increasing, first is 0, last is the first
+    index at which seq reaches its final value (so everything after the last
+    index is a run of empty rows).  Stated on row content, not on len(seq):
+    the left-searchsorted drops trailing empty rows (DESIGN.md C03)."""
+    target = f"{M}:arg_prune_partition"
+    props = ["C03"]
+
+    def configs(self, v):
+        yield "", lambda v: dict(seq=v.Arr("seq"), step=v.Int("step"))
+
+    def requires(self, seq, step):
+        return [L(seq) >= 1, step >= 1, nondecreasing(seq)]
+
+    def result(self, v, **a):
+        return v.Arr("app")
+
+    def ensures(self, result, seq, step):
+        u = result
+        m = L(u)
+        last = u[m - 1]
+        return {
+            "nonempty": m >= 1,
+            "first-is-0": u[0] == 0,
+            "strictly-increasing": increasing(u),
+            "in-range": forall(0, m, lambda k: And(0 <= u[k], u[k] < L(seq))),
+            "last-reaches-final-value": seq[last] == seq[L(seq) - 1],
+            "last-is-first-such": forall(0, last, lambda k: seq[k] < seq[L(seq) - 1]),
+        }
+
+
+def mk_reader(v, field="count"):
+    n = v.Int("n")
+    v.assume(n >= 0)
+    O = v.Arr("O", n=n + 1)
+    B1 = v.Arr("B1")
+    B2 = v.Arr("B2", n=B1.n)
+    V = v.Arr("V", n=B1.n)
+    rd = v.Obj("CSRReader", M, pixel_grp={"bin1_id": B1, "bin2_id": B2, field: V}, bin1_offsets=O,
+               dtypes={"bin1_id": "int64", "bin2_id": "int64", field: "int32"})
+    return rd, n, O, B1, B2, V
+
+
+def reader_parts(rd):
+    g = rd.attrs["pixel_grp"]
+    O = rd.attrs["bin1_offsets"]
+    return O, g["bin1_id"], g["bin2_id"]
+
+
+@contract
+class GetSpans(Contract):
+    """row spans: consecutive, start at i0, non-empty, end at a row E <= i1
+    with offsets[E] == offsets[i1] (all rows in [E, i1) are empty); no span for
+    an empty window"""
+    target = f"{M}:CSRReader.get_spans"
+    props = ["C03"]
+
+    def configs(self, v):
+        def f(v):
+            rd, n, O, B1, B2, V = mk_reader(v)
+            return dict(self=rd, bbox=(v.Int("i0"), v.Int("i1"), v.Int("j0"), v.Int("j1")),
+                        chunksize=v.Int("chunksize"))
+        yield "", f
+
+    def requires(self, self_, bbox, chunksize):
+        O, B1, B2 = reader_parts(self_)
+        i0, i1, j0, j1 = bbox
+        n = L(O) - 1
+        return [chunksize >= 1, n >= 0, nondecreasing(O), 0 <= i0, i0 <= n, 0 <= i1, i1 <= n]
+
+    def result(self, v, **a):
+        lo = v.Fn("span.lo", "int", "int")
+        hi = v.Fn("span.hi", "int", "int")
+        ns = v.Int("nspans")
+        return SymList(ns, lambda k: (lo(k), hi(k)), name="spans")
+
+    def ensures(self, result, self_, bbox, chunksize):
+        O, B1, B2 = reader_parts(self_)
+        i0, i1, j0, j1 = bbox
+        ns, sp_at = seq_view(result)
+        lo = lambda k: sp_at(k)[0]
+        hi = lambda k: sp_at(k)[1]
+        E = If(ns > 0, hi(ns - 1), i0)
+        nonempty_window = And(i1 - i0 >= 1, j1 - j0 >= 1)
+        return {
+            "count": ns >= 0,
+            "empty-window-no-spans": Implies(Not(nonempty_window), ns == 0),
+            "first-starts-at-i0": Implies(ns > 0, lo(0) == i0),
+            "consecutive": forall(0, ns - 1, lambda k: hi(k) == lo(k + 1)),
+            "nonempty-spans": forall(0, ns, lambda k: lo(k) < hi(k)),
+            "within-rows": forall(0, ns, lambda k: And(i0 <= lo(k), hi(k) <= i1)),
+            "covers-all-nonempty-rows": Implies(nonempty_window, And(i0 <= E, E <= i1, O[E] == O[i1])),
+        }
+
+
+# ------------------------------------------------------------------ CSRReader.__call__
+def _as_concat(I, x, kind="int"):
+    from pyvc.values import ConcatList, Arr
+    import z3 as _z3
+    if isinstance(x, ConcatList):
+        return x
+    if isinstance(x, list) and not x:
+        return ConcatList(_z3.IntVal(0), Arr(0, lambda k: _z3.IntVal(0), kind))
+    raise Exception("expected an empty python list before the loop")
+
+
+@contract
+class CSRReaderCall(Contract):
+    """Materialise a row-span of a 2-D range query.
+
+    Output records, described through a ghost source-index array ``src``
+    (length = number of output records): the first L0 records are exactly the
+    stored pixels p in [O[s0], O[s1]) with j0 <= B2[p] < j1, in storage order
+    (src strictly increasing); if ``reflect``, they are followed by the
+    transposed copies of exactly those direct records with B1 != B2 and
+    B2 < i1, again in order.  Values travel with their pixel."""
+    target = f"{M}:CSRReader.__call__"
+    props = ["C03", "C12"]
+
+    def configs(self, v):
+        def mk(span_given, return_index):
+            def f(v):
+                rd, n, O, B1, B2, V = mk_reader(v)
+                bbox = (v.Int("i0"), v.Int("i1"), v.Int("j0"), v.Int("j1"))
+                rs = (v.Int("s0"), v.Int("s1")) if span_given else None
+                return dict(self=rd, field="count", bbox=bbox, row_span=rs, reflect=v.Bool("reflect"),
+                            return_index=return_index)
+            return f
+        for sg in (True, False):
+            for ri in (True, False):
+                yield f"span={'given' if sg else 'None'},index={ri}", mk(sg, ri)
+
+    @staticmethod
+    def _span(bbox, row_span):
+        return (bbox[0], bbox[1]) if row_span is None else row_span
+
+    def requires(self, self_, field, bbox, row_span, reflect, return_index):
+        O, B1, B2 = reader_parts(self_)
+        n = L(O) - 1
+        s0, s1 = self._span(bbox, row_span)
+        return [valid_offsets(O, n, L(B1)), L(B2) == L(B1), L(self_.attrs["pixel_grp"][field]) == L(B1),
+                rows_match_offsets(O, B1, n), 0 <= s0, s0 <= s1, s1 <= n]
+
+    # ---- loop 0: for i in range(s0, s1)
+    def _inv(self, S):
+        O = S.self.attrs["bin1_offsets"]
+        g = S.self.attrs["pixel_grp"]
+        B1, B2, V = g["bin1_id"], g["bin2_id"], g[S.field]
+        res = S.result
+        r1, r2, rv = res["bin1_id"], res["bin2_id"], res[S.field]
+        src = S.src
+        i = S.s0 + S.it          # value the loop variable takes next
+        j0, j1 = S.j0, S.j1
+        Lc = src.flat.n
+        inv = {
+            "rows-done": r1.count == i - S.s0,
+            "counts-agree": And(r2.count == r1.count, rv.count == r1.count, src.count == r1.count),
+            "lengths-agree": And(r1.flat.n == Lc, r2.flat.n == Lc, rv.flat.n == Lc),
+            "records-are-pixels": forall(0, Lc, lambda t: And(
+                S.offset_lo <= src.flat[t], src.flat[t] < O[i],
+                j0 <= B2[src.flat[t]], B2[src.flat[t]] < j1,
+                r1.flat[t] == B1[src.flat[t]], r2.flat[t] == B2[src.flat[t]], rv.flat[t] == V[src.flat[t]])),
+            "storage-order": forall2(0, Lc, 0, Lc, lambda t1, t2: Implies(t1 < t2, src.flat[t1] < src.flat[t2])),
+            "complete": forall(S.offset_lo, O[i], lambda p: Implies(
+                And(j0 <= B2[p], B2[p] < j1),
+                And(0 <= S.rank(p), S.rank(p) < Lc, src.flat[S.rank(p)] == p))),
+            "offsets": And(S.offset_lo == O[S.s0], S.offset_hi == O[S.s1]),
+        }
+        if S.return_index:
+            ri = res["__index"]
+            inv["index-is-src"] = And(ri.count == r1.count, ri.flat.n == Lc,
+                                      forall(0, Lc, lambda t: ri.flat[t] == src.flat[t]))
+        return inv
+
+    def _prepare(self, S, I):
+        res = S.result
+        for k in list(res.keys()):
+            res[k] = _as_concat(I, res[k])
+
+    def _ghost_init(self, S, I):
+        import z3 as _z3
+        from pyvc.values import ConcatList, Arr
+        rank = _z3.Function(I.path.fresh_name("g.rank"), _z3.IntSort(), _z3.IntSort())
+        return {"src": ConcatList(_z3.IntVal(0), Arr(0, lambda k: _z3.IntVal(0), "int")), "rank": rank}
+
+    def _ghost_step(self, S, I):
+        """ghost code: src.append(offset_lo + lo + flatnonzero(mask)); rank extended on the new row"""
+        import z3 as _z3
+        from pyvc.lib_numpy import mask_filter, arr_concat
+        from pyvc.values import Arr
+        m, fsrc, frank = mask_filter(I, S.mask)
+        base = S.offset_lo + S.lo
+        old = S.src
+        oldn = old.flat.n
+        new = Arr(m, lambda k: base + fsrc(k), "int")
+        old.flat = arr_concat([old.flat, new])
+        old.count = old.count + 1
+        oldrank = S.rank
+        O = S.self.attrs["bin1_offsets"]
+        row_lo = O[S.i]
+        # new rank function: old on earlier rows, oldn + filter-rank on this row
+        nr = _z3.Function(I.path.fresh_name("g.rank"), _z3.IntSort(), _z3.IntSort())
+        p = _z3.Int(I.path.fresh_name("p!gr"))
+        I.path.assume(_z3.ForAll([p], nr(p) == _z3.If(p < row_lo, oldrank(p), oldn + frank(p - row_lo))))
+        S.set_ghost("rank", nr)
+
+    @property
+    def loops(self):
+        def havoc_rank(v):
+            return v.Fn("g.rank", "int", "int")
+        return {0: LoopSpec(self._inv, prepare=self._prepare, ghost_init=self._ghost_init,
+                            ghost_step=self._ghost_step, havoc={"__g_rank": havoc_rank})}
+
+    def result(self, v, self_, field, bbox, row_span, reflect, return_index):
+        r1, r2, rv = v.Arr("out.bin1"), None, None
+        r2 = v.Arr("out.bin2", n=r1.n)
+        rv = v.Arr("out.val", n=r1.n)
+        res = {"bin1_id": r1, "bin2_id": r2, field: rv}
+        if return_index:
+            res["__index"] = v.Arr("out.index", n=r1.n)
+        ghost = {"__ghost__": True, "src": v.Arr("out.src", n=r1.n), "L0": v.Int("out.L0"),
+                 "drank": v.Fn("out.drank", "int", "int"), "rrank": v.Fn("out.rrank", "int", "int")}
+        return res, ghost
+
+    def ensures(self, result, ghost, self_, field, bbox, row_span, reflect, return_index):
+        O, B1, B2 = reader_parts(self_)
+        V = self_.attrs["pixel_grp"][field]
+        i0, i1, j0, j1 = bbox
+        s0, s1 = self._span(bbox, row_span)
+        r1, r2, rv = result["bin1_id"], result["bin2_id"], result[field]
+        Lr = L(r1)
+        if "L0" in ghost:          # modular use: fresh ghost symbols
+            src, L0, drank, rrank = ghost["src"], ghost["L0"], ghost["drank"], ghost["rrank"]
+            srcat = lambda t: src[t]
+        else:                       # verification of the body: ghost state of the loop
+            gsrc = ghost["src"].flat
+            L0 = L(gsrc)
+            drank = ghost["rank"]
+            srcat, rrank = self._final_src(gsrc, L0, result, ghost)
+        inwin = lambda p: And(j0 <= B2[p], B2[p] < j1)
+        dup = lambda p: And(B1[p] != B2[p], B2[p] < i1)
+        out = {
+            "lengths": And(L(r2) == Lr, L(rv) == Lr, 0 <= L0, L0 <= Lr, Implies(Not(reflect), L0 == Lr)),
+            "direct-records": forall(0, L0, lambda t: And(
+                O[s0] <= srcat(t), srcat(t) < O[s1], inwin(srcat(t)),
+                r1[t] == B1[srcat(t)], r2[t] == B2[srcat(t)], rv[t] == V[srcat(t)])),
+            "direct-storage-order": forall2(0, L0, 0, L0, lambda a, b: Implies(a < b, srcat(a) < srcat(b))),
+            "direct-complete": forall(O[s0], O[s1], lambda p: Implies(
+                inwin(p), And(0 <= drank(p), drank(p) < L0, srcat(drank(p)) == p))),
+            "reflected-records": forall(L0, Lr, lambda t: And(
+                O[s0] <= srcat(t), srcat(t) < O[s1], inwin(srcat(t)), dup(srcat(t)),
+                r1[t] == B2[srcat(t)], r2[t] == B1[srcat(t)], rv[t] == V[srcat(t)])),
+            "reflected-order": forall2(L0, Lr, L0, Lr, lambda a, b: Implies(a < b, srcat(a) < srcat(b))),
+            "reflected-complete": Implies(reflect, forall(O[s0], O[s1], lambda p: Implies(
+                And(inwin(p), dup(p)), And(L0 <= rrank(p), rrank(p) < Lr, srcat(rrank(p)) == p)))),
+        }
+        if return_index:
+            ri = result["__index"]
+            out["index-column"] = And(L(ri) == Lr, forall(0, Lr, lambda t: ri[t] == srcat(t)))
+        return out
+
+    def _final_src(self, gsrc, L0, result, ghost):
+        """source index of every output record, built from the ghost state of
+        the loop and the reflect mask used by the code (prover side only)"""
+        import z3 as _z3
+        r1 = result["bin1_id"]
+        Lr = L(r1)
+        # the duplicated part is result[...][to_duplex]: its filter functions are
+        # attached to the mask object the code built; recover them through the
+        # length relation: any mask filter (m, fsrc, frank) with L0 + m == Lr
+        td = ghost["__locals__"].get("to_duplex")
+        if td is None or getattr(td, "_filter", None) is None:
+            return (lambda t: gsrc[t]), (lambda p: _z3.IntVal(0))
+        m, fsrc, frank = td._filter
+        drank = ghost["rank"]
+        return (lambda t: _z3.If(t < L0, gsrc[t], gsrc[fsrc(t - L0)])), (lambda p: L0 + frank(drank(p)))
